@@ -705,6 +705,13 @@ package router
 //@   # the quoted prefix of the offending packet is cut so that computed header length + quote stays within 1232 bytes
 //@   # (asserted where the quote is placed in the buffer, i.e. on the in-place path)
 //@   callpre (*serializeProxy).AppendBytes: 0 <= a1 && a1 + hdrLen <= slayers.MaxSCMPPacketLen
+//@   # ... and the in-place path is taken only when the reply's headers - common, address, path, SCMP and, when
+//@   # authenticated, the authenticator extension - plus the underlay headroom fit in front of the quoted packet
+//@   callpre (*serializeProxy).AppendBytes: 12 + 16 + 4*(1+int(scionL.DstAddrType&3)) + 4*(1+int(scionL.SrcAddrType&3)) + 4 + 8*revPath.NumINF + 12*revPath.NumHops + slayers.scmpHdrSize(typ) + ite(needsAuth, e2eAuthHdrLen, 0) + p.d.underlayHeadroom <= headroom
+//@   # C10/C22: the segment identifier is advanced on the info field of the segment the reply is on NOW (after a
+//@   # reverted segment switch), with the MAC of the current hop field; peering is judged on that same info field
+//@   callpre (*github.com/scionproto/scion/pkg/slayers/path.InfoField).UpdateSegID: a0 == &revPath.InfoFields[int(revPath.PathMeta.CurrINF)] && a1 == revPath.HopFields[int(revPath.PathMeta.CurrHF)].Mac
+//@   callpre determinePeer: a0.CurrHF == revPath.PathMeta.CurrHF && a0.CurrINF == revPath.PathMeta.CurrINF && a1 == revPath.InfoFields[int(revPath.PathMeta.CurrINF)]
 //@   # the SCMP header carries the requested type and code
 //@   callpre (*github.com/scionproto/scion/pkg/slayers.SCMP).SerializeTo: a0.TypeCode == slayers.SCMPTypeCode(uint16(typ)<<8|uint16(code))
 //@   gset scmpPrepared := old(scmpPrepared) + 1
